@@ -87,6 +87,12 @@ CLAIMED.update({
          LEDGER_NOTE + " Component royalty settings and WASM key-value stores are not part of the workload; they are covered only as far as the generic Locked-substate monitor sees them.", "5 C51"),
 })
 
+CLAIMED.update({
+ "C43": ("exploration", "deterministic simulation with fault injection: seeded histories of explicit / RUID mints, burns, re-mints of live and burned ids, wrong-typed ids and data updates by owner and strangers, with restarts and injected system errors; set-of-ever-minted-ids model and tombstone history invariant",
+         "A mint of an id ever minted before (live or burned) must fail, a fresh well-typed mint by the owner must succeed, every stored id has the resource's id type, every burned id's data entry stays a locked empty tombstone in every later version, data updates succeed only for the declared-mutable field by the updater and change exactly that field.",
+         LEDGER_NOTE, "5 C43"),
+})
+
 PURE = "pure function of one input value: no schedule, clock, I/O, fault or history for a simulator to own (DESIGN section 6)"
 NOT_APPLICABLE = {
  "C16": "key mapping is a pure bijection on keys; " + PURE,
